@@ -151,6 +151,8 @@ def tlc(module_path, cfg_path, workers=8, timeout=600, env=None, simulate=None, 
         if "JAVA_TOOL_OPTIONS" in env:
             e["JAVA_TOOL_OPTIONS"] = env.pop("JAVA_TOOL_OPTIONS") + (" -Dtlc2.tool.queue.IStateQueue=StateDeque" if dfs else "")
         e.update(env)
+    # TLC's own temporary directories go into the run's scratch directory (removed below), not into /tmp
+    e["JAVA_TOOL_OPTIONS"] += " -Djava.io.tmpdir=" + md
     cmd = ["tlc", "-noGenerateSpecTE", "-workers", str(workers), "-metadir", md, "-config", cfg_path]
     if simulate:
         cmd += ["-simulate", "num=%d" % simulate]
